@@ -89,7 +89,6 @@ def run(ctx):
     # ---------------------------------------------------------------- C01.1 id allocation
     call = F.inherent('client::Channel', 'call')
     bodies = F.with_descendants(call)
-    counter_field = F.field_of_type('client::Channel', lambda t: 'Atomic' in t and 'Arc' in t)
     dr = [(f, i, j, s) for f in bodies for i, j, s in f.aggregates('client::DispatchRequest')]
     gd = [(f, i, j, s) for f in bodies for i, j, s in f.aggregates('client::ResponseGuard')]
     if not dr:
@@ -97,6 +96,7 @@ def run(ctx):
     id_field = F.field_of_type('client::DispatchRequest', lambda t: t == 'u64')
     guard_id_field = F.field_of_type('client::ResponseGuard', lambda t: t == 'u64')
     id_roots = []
+    counter_paths = set()
     for f, i, j, s in dr:
         t = P._field(('agg', f.id, i, j), id_field)
         roots = P.root(t)
@@ -105,21 +105,28 @@ def run(ctx):
         for r, p in roots:
             if not P.is_call(r, 'fetch_add'):
                 good = False
-                why.append('id comes from %s' % P.describe(r))
+                why.append('id comes from %s, not from an atomic fetch_add' % P.describe(r))
                 continue
             args = P.args_of(r)
-            recv_ok = any(rr[0] == 'param' and counter_field in P.fpath(pp) for rr, pp in P.root(args[0])) if args else False
-            # the receiver may be an upvar of the async body: resolve_env handles it; accept param of any enclosing body
+            rr = P.root(args[0]) if args else []
+            recv_ok = bool(rr) and all(x[0] == 'param' and P.fpath(pp) for x, pp in rr)
             one = len(args) > 1 and const_int(args[1]) == 1
             if not recv_ok:
                 good = False
-                why.append('fetch_add receiver is not self.%s' % counter_field)
+                why.append('fetch_add receiver is not a field of the handle')
+            else:
+                for x, pp in rr:
+                    counter_paths.add(P.fpath(pp))
             if not one:
                 good = False
                 why.append('fetch_add increment is not the constant 1')
+            # no narrowing between the counter and the id
+            if any(st[0] == 't' and str(st[1]).startswith('cast:') and not str(st[1]).endswith(('u64', 'u128', 'usize')) for st in p):
+                good = False
+                why.append('the counter value is narrowed before use')
             id_roots.append(r)
-        R.ob('C01.1', ('Channel::call', 'id = fetch_add(self.%s, 1)' % counter_field), good and bool(roots),
-             'request id of the queued request is one atomic fetch_add(counter, 1)', [f.loc(s)], '; '.join(why))
+        R.ob('C01.1', ('Channel::call', 'id = fetch_add(handle counter, 1)'), good and bool(roots),
+             'request id of the queued request is the result of one atomic fetch_add(counter, 1) on a counter field of the handle', [f.loc(s)], '; '.join(why))
     for f, i, j, s in gd:
         t = P._field(('agg', f.id, i, j), guard_id_field)
         roots = [r for r, p in P.root(t)]
@@ -127,18 +134,26 @@ def run(ctx):
         R.ob('C01.1', ('Channel::call', 'guard id = request id'), ok,
              'the cancel guard carries the same id value as the queued request', [f.loc(s)],
              'guard id from ' + ', '.join(P.describe(r) for r in roots))
-    # Clone shares the counter
+    # Clone shares the counter: the field(s) on the way to the atomic are cloned from self, and an Arc lies on that way
     clone = F.trait_method('Clone', 'client::Channel', 'clone')
     aggs = list(clone.aggregates('client::Channel'))
-    ok = bool(aggs)
+    ok = bool(aggs) and len(counter_paths) == 1
     det = []
+    counter_field = sorted(counter_paths)[0][0] if counter_paths else None
+    if ok:
+        cty = [x[1] for x in F.adt('client::Channel')['variants'][0]['fields'] if x[0] == counter_field]
+        if not (cty and 'Arc<' in cty[0] and 'Atomic' in cty[0]):
+            ok = False
+            det.append('the counter field %s is not an Arc of an atomic (type %s): clones would not share it' % (counter_field, cty))
     for i, j, s in aggs:
+        if counter_field is None:
+            break
         t = P._field(('agg', clone.id, i, j), counter_field)
         for r, p in P.root(t):
             if not (r[0] == 'param' and counter_field in P.fpath(p)):
                 ok = False
                 det.append('cloned handle counter from %s' % P.describe(r))
-    R.ob('C01.1', ('<Channel as Clone>::clone', 'shares counter'), ok, 'cloned handles share the one id counter (Arc clone of self.%s)' % counter_field,
+    R.ob('C01.1', ('<Channel as Clone>::clone', 'shares counter'), ok, 'cloned handles share the one id counter (Arc clone of the counter field)',
          [clone.loc(clone.d)], '; '.join(det))
     # who may construct Channel
     ctors = [(f, i, j, s) for f, i, j, s in F.all_aggregates('client::Channel') if f.id != clone.id]
